@@ -12,14 +12,29 @@ open TdModel TdModel.C14
 
 /-! ### Regenerated facts equal the specification -/
 
-theorem kdf_parameters_are_spec :
-    Facts.C15.pbkdf2Iters = 100000 ∧ Facts.C15.pbkdf2KeyLen = 64 ∧ Facts.C15.pbkdf2Hash = "sha512.New" := by
-  decide
+/-- PH2 as **translated from the source**: `SH(pbkdf2(sha512, SH(SH(password, salt1), salt2), salt1, 100000), salt2)`
+with a 64-byte derived key, `SH(data, salt) = H(salt | data | salt)`. -/
+theorem kdf_is_spec (H : List (List UInt8) → List UInt8) (KDF : List UInt8 → List UInt8 → Nat → Nat → List UInt8)
+    (pw s1 s2 : List UInt8) :
+    Facts.C15.secondaryT H KDF pw s1 s2 = H [s2, KDF (H [s2, H [s1, pw, s1], s2]) s1 100000 64, s2] ∧
+    Facts.C15.pbkdf2Hash = "sha512.New" := ⟨rfl, by decide⟩
 
+/-- The operands of every hash in `SRP.Hash`, **regenerated from the source and interpreted by the
+model**: `g_b = pad256(srpB)`, `t` from `srpB`, `u = H(g_a | g_b)`, `x = PH2(password, salt1, salt2)`,
+`k = H(p | g)`, `k_a = H(s_a)` (padded), `H(p) xor H(g)`, `M1 = H(xor | H(salt1) | H(salt2) | g_a | g_b | k_a)`;
+the rest of the source shape is pinned as text. -/
 theorem hash_inputs_are_spec :
-    Facts.C15.m1Expr = "s.hash( xorHpHg[:], s.hash(i.Salt1), s.hash(i.Salt2), ga[:], gb[:], ka[:], )" ∧
-    Facts.C15.kExpr = "s.bigFromBytes(s.hash(i.P, gBytes[:]))" ∧
-    Facts.C15.uExpr = "s.bigFromBytes(s.hash(ga[:], gb[:]))" := by decide
+    Facts.C15.gbSource = .val .srpB ∧ Facts.C15.tSource = .val .srpB ∧
+    Facts.C15.uOperands = [.val .ga, .val .gb] ∧
+    Facts.C15.xvOperands = [.val .password, .val .salt1, .val .salt2] ∧
+    Facts.C15.kOperands = [.val .iP, .val .gBytes] ∧
+    Facts.C15.kaOperand = .val .sa ∧
+    Facts.C15.xorOperands = [.hashed .iP, .hashed .gBytes] ∧
+    Facts.C15.m1Operands = [.val .xorHpHg, .hashed .salt1, .hashed .salt2, .val .ga, .val .gb, .val .ka] ∧
+    Facts.C15.xvGroupArgs = "g, p" ∧
+    Facts.C15.saExpr = "s.bigExp(t, u.Mul(u, x).Add(u, a), p)" ∧
+    Facts.C15.computeXVBody = "{ x = new(big.Int).SetBytes(s.secondary(password, clientSalt, serverSalt)) v = new(big.Int).Exp(g, x, p) return x, v }" :=
+  ⟨rfl, rfl, rfl, rfl, rfl, rfl, rfl, rfl, rfl, rfl, rfl⟩
 
 /-! ### The answer is the specification's -/
 
